@@ -132,11 +132,13 @@ def parse(text: str, stop: bool = False, default_dialect: str = "en", ids: int =
     return out
 
 
-def pickles(text: str, uri: str = "u", default_dialect: str = "en") -> dict:
+def pickles(text: str, uri: str = "u", default_dialect: str = "en", compiler: Compiler | None = None,
+            matcher: TokenMatcher | None = None) -> dict:
+    """parse with a fresh parser (ids from 0), compile; `compiler`/`matcher` may be reused instances"""
     gen = id_gen(0)
     parser = Parser(AstBuilder(gen))
     try:
-        doc = parser.parse(text, TokenMatcher(default_dialect))
+        doc = parser.parse(text, matcher if matcher is not None else TokenMatcher(default_dialect))
     except CompositeParserException as e:
         return {"errors": [err_json(x) for x in e.errors], "composite": True}
     except ParserException as e:
@@ -145,7 +147,11 @@ def pickles(text: str, uri: str = "u", default_dialect: str = "en") -> dict:
         return {"crash": f"{type(e).__name__}: {e}"}
     try:
         before = copy.deepcopy(doc)
-        ps = Compiler(gen).compile({**doc, "uri": uri})
+        if compiler is None:
+            compiler = Compiler(gen)
+        else:
+            compiler.id_generator = gen
+        ps = compiler.compile({**doc, "uri": uri})
         out = {"pickles": ps, "ids": gen._id_counter}
         if before != doc:
             out["mutated_input"] = True
@@ -154,13 +160,17 @@ def pickles(text: str, uri: str = "u", default_dialect: str = "en") -> dict:
         return {"crash": f"{type(e).__name__}: {e}"}
 
 
-def compile_ast(doc: dict, uri: str, start: int) -> dict:
+def compile_ast(doc: dict, uri: str, start: int, compiler: Compiler | None = None) -> dict:
     gen = id_gen(start)
     d = copy.deepcopy(doc)
     d["uri"] = uri
     snapshot = copy.deepcopy(d)
     try:
-        ps = Compiler(gen).compile(d)
+        if compiler is None:
+            compiler = Compiler(gen)
+        else:
+            compiler.id_generator = gen
+        ps = compiler.compile(d)
         out = {"pickles": ps, "ids": gen._id_counter}
     except Exception as e:
         out = {"crash": f"{type(e).__name__}: {e}"}
